@@ -60,9 +60,9 @@ Theorem C19_chain_with_dangling : forall cfg st w p w1 u w2, get_pending cfg w =
 Proof. exact cleanup_reversal_then_end_of_day. Qed.
 
 (* which dangling pre-authorisation is reversed: every receipt number the terminal reports, only the FFFF marker means none *)
-Theorem C19_pending_reports_receipt : forall ixa v r, abort_code v = 184 ->
+Theorem C19_pending_reports_receipt : forall ixa sk v r, abort_code v = 184 ->
   field_of "zvt::packets::PartialReversalAbort" v 135 = Some (VSome (VInt r)) ->
-  fst (h_pending ixa tt ixa v) = Some (if r =? 65535 then ROk [] else ROk [r]).
+  fst (h_pending ixa sk tt ixa v) = Some (if r =? 65535 then ROk [] else ROk [r]).
 Proof. exact pending_reports_receipt. Qed.
 (* down to the wire, for every state, world and time: the chain's first act on the connection in use is the query for a
    dangling pre-authorisation — a request the partial-reversal layout reads back as the marker FFFF and nothing else *)
